@@ -5019,3 +5019,60 @@ def tab13(ctx):
     if n < 30:
         raise AnchorMissing("TAB-13: %d composite keys in cardinals.json (expected >= 30)" % n)
     return r
+
+
+# ---------------------------------------------------------------- FLW-17: "start of the next syllable" is handed back one step early
+
+def flw17(ctx):
+    """SubRule::substitution hands the scan its next position as `last_pos`, which the caller then *increments*. After an
+    output element that rewrote a whole syllable the arms set `last_pos = (s + k, 0)` -- the start of the next syllable --
+    and, when that element was the last one, step back (`if state_index >= self.output.len()-1 { last_pos.decrement(..)
+    }`) so that the increment lands ON that start, not one segment past it. Every arm that moves the cursor to the start
+    of a later syllable has that step back (an Engler-style majority rule: eight sites agree)."""
+    r = RuleResult("FLW-17", "SubRule::substitution: every arm that sets last_pos to the start of a later syllable (`syll_index = s + k; seg_index = 0`) is followed by the conditional `last_pos.decrement(..)` for the last output element", floor=7)
+    lib = ctx.lib
+    b = ctx.fn(lib, "asca::subrule::SubRule::substitution")
+    root = b.hir["body"]
+    par = hirq.parent_map(root)
+    n = 0
+    sites = []
+    for x in hirq.walk(root):
+        if x["e"] != "assign":
+            continue
+        l = hirq.strip(x["lhs"])
+        if not (l.get("e") == "field" and l["name"] == "syll_index" and hirq.strip(l["a"]).get("local") == "last_pos"):
+            continue
+        rhs = hirq.strip(x["rhs"])
+        if not (rhs.get("e") == "binary" and rhs["op"] == "Add"):
+            continue
+        sites.append(x)
+    # group the two assignments of one `if .. { = s + 2 + adj } else { = s + 1 + adj }` by their enclosing block statement
+    seen_blocks = set()
+    k = 0
+    for x in sites:
+        # the block in which the statement (or the if/else around it) is a direct statement
+        child, p = x, par.get(id(x))
+        blk = None
+        while p is not None:
+            if p.get("e") == "block":
+                items = list(p.get("stmts", [])) + ([p["tail"]] if p.get("tail") is not None else [])
+                after = hirq.stmts_after(p, child)
+                zero = any(hirq.strip(st).get("e") == "assign" and hirq.strip(hirq.strip(st)["lhs"]).get("name") == "seg_index" and hirq.strip(hirq.strip(hirq.strip(st)["lhs"])["a"]).get("local") == "last_pos" for st in after)
+                if zero:
+                    blk = p
+                    break
+            child, p = p, par.get(id(p))
+        if blk is None or (id(blk), id(child)) in seen_blocks:
+            continue
+        seen_blocks.add((id(blk), id(child)))
+        n += 1
+        after = hirq.stmts_after(blk, child)
+        stepped = any(any(y["e"] == "mcall" and y["name"] == "decrement" and hirq.strip(y["recv"]).get("local") == "last_pos" for y in hirq.walk(st)) for st in after if hirq.strip(st).get("e") == "if")
+        r.inst("substitution: cursor moved to the start of a later syllable #%d is stepped back for the last output element" % k, fn_loc(b, x.get("ln")), "ok" if stepped else "report")
+        if not stepped:
+            r.report("FLW-17|substitution|#%d" % k, fn_loc(b, x.get("ln")), b.path,
+                     "this arm sets last_pos to the start of the next syllable but, unlike its sibling arms, does not step back when it handled the last output element: the caller's increment then lands on the SECOND segment of that syllable and the scan skips it -- `%=1 > 1:[+stress]` stresses only every other syllable of `ka.ta.ma.na`")
+        k += 1
+    if n < 7:
+        raise AnchorMissing("FLW-17: %d arms moving last_pos to the start of a later syllable found (expected >= 7)" % n)
+    return r
